@@ -76,8 +76,10 @@ def write_evidence(ctx: Ctx, n_viol: int, known_lines):
         "wall_s": round(time.time() - ctx.t0, 2),
         "violations": n_viol,
     }
-    os.makedirs(os.path.join(VERIF, "evidence"), exist_ok=True)
-    with open(os.path.join(VERIF, "evidence", f"{ctx.pid}.json"), "w") as f:
+    # runs against a scratch copy of the repository (tools/mutant.sh, tools/seed_eval.sh) keep their evidence apart
+    evdir = os.environ.get("VERIF_EVIDENCE_DIR") or os.path.join(VERIF, "evidence")
+    os.makedirs(evdir, exist_ok=True)
+    with open(os.path.join(evdir, f"{ctx.pid}.json"), "w") as f:
         json.dump(ev, f, indent=1, sort_keys=True, default=str)
         f.write("\n")
 
